@@ -200,6 +200,15 @@ Theorem reverse_view : forall f u cvs, wb f u cvs -> it_len repaired u = OVal (z
 Proof. exact IterProofs.reverse_summary. Qed.
 Print Assumptions reverse_view.
 
+(*    enumerate(I) = zip(range(0, len I), I) yields the pairs (i, i-th item of I) *)
+Theorem enumerate_view : forall f u cvs, wb f u cvs -> it_len repaired u = OVal (zlen cvs) ->
+  item_len_of f u = OVal (zlen cvs) -> zlen cvs < box ->
+  exists s ch, mk_enumerate repaired u = OVal s /\ wb f s ch /\ length ch = length cvs /\
+    forall j, (j < length cvs)%nat ->
+      nth_error (map snd ch) j = Some (VTup [VInt (Z.of_nat j); nth j (map snd cvs) dv]).
+Proof. exact IterProofs.enumerate_summary. Qed.
+Print Assumptions enumerate_view.
+
 (*    Composition to depth 3 over an arbitrary well-behaved u (itself possibly a view). *)
 Theorem nested_views_compose : forall f u cvs r g p,
   wb f u cvs -> it_len repaired u = OVal (zlen cvs) -> slice_ok r (zlen cvs) -> (length cvs <= f)%nat ->
